@@ -378,7 +378,7 @@ func main() {
 	c.Cov["safeadd_grid"] = "12x12 = 144 cells over {minInt, minInt+1, -2, -1, 0, 1, 2, maxInt/2, maxInt/2+1, maxInt-2, maxInt-1, maxInt}; both operands >= 0 (64 cells): exact saturating sum from math/big; one negative (64): the other operand; both negative (16): documentation does not define the value, only a non-negative result is required (the code returns 1)"
 	c.Cov["bounds"] = map[string]any{
 		"max_selection_nodes": map[string]int{"single-file": plans[0].n, "follow-schema": plans[1].n},
-		"grammar":             "ordered selection sets over Query{str,z:str,arg[6 argument forms],t,targ[3 argument forms],node,u,rep,__typename} Rep{old,rows,newFoo,new_foo} Row{id} (Rep.old is bound to the Go field of Rep.rows by @goField(name:) and is declared before it, Rep.new_foo normalises to the Go field of Rep.newFoo: one ComplexityRoot member per pair, assignments are per member and the oracle is asked under every schema name) Mutation{m1,m3} T{id,z:id,name,kid,peer,u,__typename} S{id,peer} Node{id,__typename} Named{name} Deep{peer} U{__typename}; inline fragments without / with type condition in {T,S,Node,Named,Deep,U} (where the types overlap); named fragment definition+spread on the same conditions; re-use of any fragment of the document; argument forms of Query.arg (leaf, default x=7): none, x:3, x:$v, x:2 y:[p,q], x:-4, x:null; of Query.targ (composite, added by this check as `extend type Query { targ(x: Int = 6): T }`, default x=6): none, x:3, x:$v; variable modes for $v: given 2, variable default 4, absent, null",
+		"grammar":             "ordered selection sets over Query{str,z:str,arg[6 argument forms],t,targ[3 argument forms],node,u,rep,__typename,__schema,__type(name:\"T\")} __Schema{__typename,queryType} __Type{name} Rep{old,rows,newFoo,new_foo} Row{id} (Rep.old is bound to the Go field of Rep.rows by @goField(name:) and is declared before it, Rep.new_foo normalises to the Go field of Rep.newFoo: one ComplexityRoot member per pair, assignments are per member and the oracle is asked under every schema name) Mutation{m1,m3} T{id,z:id,name,kid,peer,u,__typename} S{id,peer} Node{id,__typename} Named{name} Deep{peer} U{__typename}; inline fragments without / with type condition in {T,S,Node,Named,Deep,U} (where the types overlap); named fragment definition+spread on the same conditions and on Query; re-use of any fragment of the document; argument forms of Query.arg (leaf, default x=7): none, x:3, x:$v, x:2 y:[p,q], x:-4, x:null; of Query.targ (composite, added by this check as `extend type Query { targ(x: Int = 6): T }`, default x=6): none, x:3, x:$v; variable modes for $v: given 2, variable default 4, absent, null",
 		"assignments":         "custom functions on <= 2 of the Object.field pairs the operation touches (for interface selections: every implementing object), each from {const 0, 1, 5, -3, maxInt, maxInt-1, child*2 saturating, child+x+10*len(y) (= child on fields without arguments)}; plus one assignment per operation putting maxInt on every field the operation does not touch",
 		"limits":              "core {0, 1, c-1, c, c+1, maxInt} for every (operation, assignment) that gets the gate (c = reference complexity); the full boundary grid {minInt, minInt+1, -maxInt, -2, -1, 0, 1, c-1, c, c+1, maxInt-1, maxInt} (de-duplicated) for the first assignment reaching each distinct complexity value of each operation - each grid limit through FixedComplexityLimit on a fresh executor, and the grid as one history through a long-lived executor with the per-request ComplexityLimit{Func} (limit from a header). The assignments' constants put c on the boundary grid {0, 1, 2, 5, maxInt-1, maxInt (also as saturated sums)}",
 		"executor_gate":       fmt.Sprintf("every limit x every assignment for operations with <= %d nodes (layout single-file) / <= %d nodes (layout follow-schema); for larger operations every limit x the first assignment reaching each distinct reference value", plans[0].fullGate, plans[1].fullGate),
@@ -392,7 +392,7 @@ func main() {
 		"Every selection node is costed separately: duplicate and aliased fields are not merged, and fragments on different (even mutually exclusive) type conditions are summed, not maximised.",
 		"A custom value is taken when it is >= the children's cost (equality included: a leaf with custom const 0 costs 0); otherwise the field costs 1 + children.",
 		"For a field selected on an interface the implementors are the OBJECT types that can stand behind the interface (ComplexityRoot has entries for objects only); a field selected on a union (__typename) costs 1.",
-		"__typename has no custom function and costs 1. Introspection (__schema is skipped by the walker, __type is not) and @skip/@include (ignored by the walker, which over-counts) are outside the grammar.",
+		"__typename has no custom function and costs 1. The meta field __schema and everything selected below it cost 0 while the rest of its selection set counts as usual (complexity.go skips fields of type __Schema); __type(name:) is NOT exempt in complexity.go and is costed like an ordinary field without custom function (1 + children) - the reference follows the code here, the documentation is silent on introspection. Meta fields are placed wherever they are legal: at the query root, inside inline and named fragments on Query, before and after ordinary fields. The sessions install extension.Introspection so these selections execute. @skip/@include (ignored by the walker, which over-counts) are outside the grammar.",
 		"Argument values handed to a custom function are the coerced values of the GraphQL spec (literal, variable, variable default, argument default 7, explicit null).",
 		"Saturation: every intermediate sum is min(exact, maxInt); the custom functions of the alphabet saturate themselves (they are the user's code, not gqlgen's).",
 		"'Rejected' means: an error with extensions.code = COMPLEXITY_LIMIT_EXCEEDED, null/absent data and an empty resolver log. The HTTP status is not asserted (the extension's doc comment says 422, the code and gqlgen's own tests say 200). 'Not rejected' means: data, number of errors and resolver log equal those of a run without the extension.",
